@@ -50,6 +50,31 @@ func Run(ctx *common.Ctx) {
 			return "QOther"
 		}
 	}
+	// the other resolutions of a FUNCTION name (plain, p:n, p::n): bit 0 fboundp, 1 symbol-function, 2 #'name,
+	// 3 fdefinition, 4 function-lambda-expression; a bit is set when that form says "defined" (fboundp: a
+	// non-nil value; the others: no error).  Added after the defect "fboundp of a qualified symbol is nil" was
+	// reported from outside: only the call was observed.
+	resolvers := []string{"(fboundp '%s)", "(symbol-function '%s)", "#'%s", "(fdefinition '%s)", "(function-lambda-expression '%s)"}
+	fmask := func(name string) int {
+		m := 0
+		for b, f := range resolvers {
+			o := eval(fmt.Sprintf(f, name))
+			if o.Err == "" && (b != 0 || o.Value != nil) {
+				m |= 1 << b
+			}
+		}
+		return m
+	}
+	// enumerated, no model needed: built-in functions through every spelling of their package
+	for _, fn := range []string{"car", "cons", "list", "fboundp"} {
+		for _, pre := range []string{"", "cl:", "cl::", "common-lisp:", "common-lisp::"} {
+			ctx.Hist("builtin-qualified-resolvers")
+			if m := fmask(pre + fn); m != 31 {
+				ctx.Violate("a built-in function is not found through a package-qualified name by every resolver (bits: fboundp, symbol-function, function, fdefinition, function-lambda-expression)",
+					pre+fn, fmt.Sprintf("mask %d", m), "mask 31")
+			}
+		}
+	}
 	// enumerated block (does not depend on the random seed): every qualified write (setq / defvar x one / two
 	// colons) on every kind of target variable of package a (private with a value, exported with a value,
 	// exported without value, private without value, absent, inherited from c) from another current package
@@ -92,7 +117,7 @@ func Run(ctx *common.Ctx) {
 			panic("in-package: " + o.Msg)
 		}
 		L := 2 + ctx.Rng.Intn(maxLen-1)
-		var gops, gobs []string
+		var gops, gobs, gfobs []string
 		var recs []opRec
 		val := 0
 		// approximate shadow of the package graph, only used to bias the generator towards steps
@@ -324,7 +349,7 @@ func Run(ctx *common.Ctx) {
 				rec.Obs = append(rec.Obs, "!op failed: "+o.Err+": "+o.Msg)
 			}
 			// observe from every package
-			var obs []string
+			var obs, fobs []string
 			for c := 0; c < 3; c++ {
 				if r := eval("(in-package \"" + pk[c] + "\")"); r.Err != "" {
 					panic("in-package: " + r.Msg)
@@ -337,8 +362,10 @@ func Run(ctx *common.Ctx) {
 				}
 				for _, n := range fnames {
 					obs = append(obs, qres(eval("("+n+")"), true))
+					fobs = append(fobs, strconv.Itoa(fmask(n)))
 					for _, pp := range pk {
 						obs = append(obs, qres(eval("("+pp+":"+n+")"), true), qres(eval("("+pp+"::"+n+")"), true))
+						fobs = append(fobs, strconv.Itoa(fmask(pp+":"+n)), strconv.Itoa(fmask(pp+"::"+n)))
 					}
 				}
 			}
@@ -351,13 +378,17 @@ func Run(ctx *common.Ctx) {
 			for _, ob := range obs {
 				ctx.Hist("query:" + strings.SplitN(ob, " ", 2)[0])
 			}
-			rec.Obs = append(rec.Obs, strings.Join(obs, " | "))
+			rec.Obs = append(rec.Obs, strings.Join(obs, " | "), "resolver masks of the function slots: "+strings.Join(fobs, " "))
+			for _, m := range fobs {
+				ctx.Hist("resolver-mask:" + m)
+			}
+			gfobs = append(gfobs, "["+strings.Join(fobs, "; ")+"]%N")
 			recs = append(recs, rec)
 			gops = append(gops, xg)
 			gobs = append(gobs, common.GList(obs))
 		}
 		slip.CurrentPackage = orig
-		term := fmt.Sprintf("(%s,\n    %s)", common.GList(gops), common.GList(gobs))
+		term := fmt.Sprintf("(%s,\n    %s,\n    %s)", common.GList(gops), common.GList(gobs), common.GList(gfobs))
 		ctx.Meta.Evaluations++
 		sig := strings.Join(gops, ";")
 		if !distinct[sig] {
@@ -372,11 +403,11 @@ func Run(ctx *common.Ctx) {
 		}
 	}
 	ctx.Meta.DistinctNontrivial = len(distinct)
-	ctx.Meta.Rule = "48 enumerated histories (seed-independent: {setq, defvar} x {p:n, p::n} x 6 kinds of target variable x current package other / same) + random histories (2..12 ops, thorough 2..14; 70% focused on one variable, one function and one exporting package; 35% start with one of 18 scripted openings of 7..14 steps, one per repaired finding of C13: unuse, private setq, use over own names, (f)makunbound of exported and of inherited names, export before definition, defun on inherited names, unexport in a user, two exporters of one name, use chains) over 3 fresh packages x {in-package, use-package, unuse-package, export, unexport, setq, defvar, defun, makunbound, fmakunbound, and 7% qualified writes (setq|defvar p:n|p::n)} x 2 variable and 2 function names; after every step 84 resolutions (3 current packages x 4 names x {plain, p:, p::} x 3 packages); distinct = distinct op sequences (all have >= 2 ops)"
+	ctx.Meta.Rule = "48 enumerated histories (seed-independent: {setq, defvar} x {p:n, p::n} x 6 kinds of target variable x current package other / same) + random histories (2..12 ops, thorough 2..14; 70% focused on one variable, one function and one exporting package; 35% start with one of 18 scripted openings of 7..14 steps, one per repaired finding of C13: unuse, private setq, use over own names, (f)makunbound of exported and of inherited names, export before definition, defun on inherited names, unexport in a user, two exporters of one name, use chains) over 3 fresh packages x {in-package, use-package, unuse-package, export, unexport, setq, defvar, defun, makunbound, fmakunbound, and 7% qualified writes (setq|defvar p:n|p::n)} x 2 variable and 2 function names; after every step 84 resolutions (3 current packages x 4 names x {plain, p:, p::} x 3 packages) and, for each of the 42 function slots, the answers of fboundp, symbol-function, function, fdefinition, function-lambda-expression on the same (qualified) name; 20 built-in names (4 functions x {plain, cl:, cl::, common-lisp:, common-lisp::}) through the same five resolvers; distinct = distinct op sequences (all have >= 2 ops)"
 	header := "From C13 Require Import Model Spec Corr.\nOpen Scope Z_scope.\n"
-	footer := "Definition res := Eval vm_compute in xcheck_all cases.\nPrint res.\n" +
-		"Definition gcount := Eval vm_compute in xguard_count cases.\nPrint gcount.\n" +
-		"Definition qualcount := Eval vm_compute in xqual_count cases.\nPrint qualcount.\n"
-	ctx.WriteShards("cases", header, "xcase", footer, terms, descs, 16)
+	footer := "Definition res := Eval vm_compute in fcheck_all cases.\nPrint res.\n" +
+		"Definition gcount := Eval vm_compute in xguard_count (map fst cases).\nPrint gcount.\n" +
+		"Definition qualcount := Eval vm_compute in xqual_count (map fst cases).\nPrint qualcount.\n"
+	ctx.WriteShards("cases", header, "fcase", footer, terms, descs, 16)
 	ctx.ReplayKnownLisp()
 }
